@@ -135,6 +135,10 @@ NEG = {'==': '!=', '!=': '==', '<': '>=', '<=': '>', '>': '<=', '>=': '<'}
 SWAP = {'<': '>', '<=': '>=', '>': '<', '>=': '<=', '==': '==', '!=': '!='}
 
 
+NARROW = {'unsigned int': (0, 2**32 - 1), 'int': (-2**31, 2**31 - 1), 'unsigned short': (0, 65535), 'short': (-32768, 32767),
+          'unsigned char': (0, 255)}
+
+
 class State:
     __slots__ = ('env', 'facts')
 
@@ -566,6 +570,12 @@ class Analysis:
         y = self.ev(b, st, nid)
         if op in NEG:
             return self.rel(op, x, y)
+        if op == '-' and e.get('t') in ('unsigned long', 'unsigned int'):
+            # unsigned difference (C12 S7: wraps to a huge value when x < y)
+            self.event(nid, ('usub', x, y, e.get('t'), e.get('l', 0)))
+        if op in ('+', '-', '*', '<<') and e.get('t') in NARROW:
+            # arithmetic carried out in a type narrower than size_t (C12 S7: wrap-around)
+            self.event(nid, ('narrow', op, x, y, e.get('t'), e.get('l', 0)))
         return self.arith(op, x, y)
 
     def arith(self, op, x, y):
